@@ -14,7 +14,7 @@ CONSTANTS
   XReps = {99, 2}
   UNames = {"-", "r2"}
   UDurs = {99, 0, 1, 2, 5, 9}
-  USGDs = {99, 0, 1, 4, 9}
+  USGDs = {99, 0, 1, 2, 4, 9}
   UFull = TRUE
   AutoCreate = FALSE
   MaxSG = 0
